@@ -152,7 +152,7 @@ class JobSetstate(FSContract):
 
 class JobDeepcopy(FSContract):
     target = f"{JOB}.Job.__deepcopy__"
-    properties = ("C03", "C04")
+    properties = ("C03", "C04", "C05", "C10")      # the document handle of the copy is the deep copy of the original's (same file, same write concern)
 
     def make_ctx(self, case):
         ctx = super().make_ctx(case)
@@ -175,6 +175,10 @@ class JobDeepcopy(FSContract):
         proj = mk_project(ex)
         job = mk_job(interp, proj, "me")
         job.fields["_lock"] = RLockStub()
+        if ex.decide(None, "pre:document handle already open"):
+            from .jobfs import SDoc
+            from pyvc.theory_fs import LIn, Name
+            job.fields["_document"] = SDoc(LIn(proj.p, job.me, Name.DOC), True)
         memo = {}
         return [job, memo], {}, {"job": job, "before": fields_snapshot(job), "memo": memo}
 
@@ -225,6 +229,10 @@ class JobCopy(FSContract):
         proj = mk_project(ex)
         job = mk_job(interp, proj, "me")
         job.fields["_lock"] = RLockStub()
+        if job.fields["_statepoint_requires_init"] is True and ex.decide(None, "pre:a stale state point object is still attached to the lazy handle"):
+            # e.g. after Job.move(): the handle is lazy again but the attribute of the former state point object is still there
+            job.fields["_statepoint"] = mk_spdict(interp, job, job.sp)
+            job.fields["_statepoint"].fields["_jobs"] = []
 
         class SpOf(dict):
             def __missing__(s, key):
